@@ -4,6 +4,7 @@ CONSTANTS
   Fuel = 4
   Quarantine = {}
   Only = {}
+  Offsets = {0}
   Allow = {"pou:block", "vspec:string", "vspec:wstring", "vspecio:string", "vspecio:wstring", "string:len", "string:init", "q:retain", "q:constant", "block:more"}
   Emit = TRUE
 INVARIANTS OneValue NothingDropped Terminates PrecedenceShape EmitReplay
